@@ -6,6 +6,7 @@ Definition check_prop (p : Z) (inp obs : V) : verdict :=
   match p with
   | 13%Z => check_secure inp obs
   | 3%Z => check_crash gen_crash_params inp obs
+  | 106%Z => check_storm inp obs
   | 18%Z => check_leftovers gen_res_params inp obs
   | 20%Z => check_conc nextid_atomic inp obs
   | 14%Z => check_interop inp obs
